@@ -183,91 +183,194 @@ theorem attOk_withVote (key : AnyClaim → η) (P : AnyClaim → Prop) (a : Att 
   · exact ha.2 v hv
   · exact ⟨hn.symm, hh.symm, hc⟩
 
-theorem inv_applyVote (key : AnyClaim → η) (P : AnyClaim → Prop) (s : AState η) (a : Att η) (o : Nat) (c : AnyClaim) (obs : Bool)
-    (hs : Inv key P s) (ha : AttOk key P a) (hn : a.nonce = c.nonce) (hh : a.hash = key c) (hc : P c) :
-    Inv key P (applyVote s a o c obs) := by
-  have ha' : AttOk key P { a with observed := true } := ha
-  unfold applyVote
-  split
-  · refine ⟨?_, ?_⟩
-    · intro b hb
-      rcases mem_setAtt hb with rfl | hb
-      · exact ha'
-      · rcases mem_setAtt hb with rfl | hb
-        · exact ha
-        · exact hs.1 b hb
-    · intro e he
-      simp only [List.mem_append, List.mem_singleton] at he
-      rcases he with he | rfl
-      · exact hs.2 e he
-      · refine ⟨hc, fun v hv => ?_⟩
-        have := ha.2 v hv
-        exact ⟨this.1.trans hn, this.2.1.trans hh, this.2.2⟩
-  · refine ⟨?_, hs.2⟩
-    intro b hb
+/-! ### the call sites -/
+
+omit [DecidableEq η] in
+theorem mem_insertBy {le : η → η → Bool} {a b : Att η} : ∀ {xs : List (Att η)}, b ∈ insertBy le a xs → b = a ∨ b ∈ xs
+  | [], h => by simpa [insertBy] using h
+  | x :: r, h => by
+    simp only [insertBy] at h
+    split at h
+    · simpa using h
+    · simp only [List.mem_cons] at h ⊢
+      rcases h with h | h
+      · exact Or.inr (Or.inl h)
+      · rcases mem_insertBy h with h | h
+        · exact Or.inl h
+        · exact Or.inr (Or.inr h)
+
+omit [DecidableEq η] in
+theorem mem_sortAtts {le : η → η → Bool} {b : Att η} : ∀ {xs : List (Att η)}, b ∈ sortAtts le xs → b ∈ xs
+  | [], h => by simpa [sortAtts] using h
+  | x :: r, h => by
+    simp only [sortAtts, List.foldr_cons] at h
+    rcases mem_insertBy h with h | h
+    · simp [h]
+    · exact List.mem_cons_of_mem _ (mem_sortAtts (xs := r) h)
+
+omit [DecidableEq η] in
+theorem mem_candidates {le : η → η → Bool} {s : AState η} {a1 b : Att η} {c : AnyClaim} {t : AttSel}
+    (h : b ∈ candidates le s a1 c t) : (t = .voted ∧ b = a1) ∨ b ∈ s.atts := by
+  cases t with
+  | voted => simp only [candidates, List.mem_singleton] at h; exact Or.inl ⟨rfl, h⟩
+  | stored =>
+    simp only [candidates] at h
+    have := mem_sortAtts h
+    simp only [List.mem_filter] at this
+    exact Or.inr this.1
+  | other => simp [candidates] at h
+
+omit [DecidableEq η] in
+theorem firstCrossing_mem {s : AState η} {a : Att η} : ∀ {xs : List (Att η)}, firstCrossing s xs = some a → a ∈ xs
+  | [], h => by simp [firstCrossing] at h
+  | x :: r, h => by
+    simp only [firstCrossing] at h
+    split at h
+    · simp only [Option.some.injEq] at h
+      simp [h]
+    · exact List.mem_cons_of_mem _ (firstCrossing_mem h)
+
+omit [DecidableEq η] in
+/-- what a walk over the call sites returns: an attestation one of the sites selects, and the claim that site hands over -/
+theorem trySites_spec {le : η → η → Bool} {s : AState η} {a1 a : Att η} {c ch : AnyClaim} :
+    ∀ {sites : List TrySite}, trySites le s a1 c sites = some (a, ch) →
+      ∃ t ∈ sites, a ∈ candidates le s a1 c t.att ∧ ch = handed a c t.claim
+  | [], h => by simp [trySites] at h
+  | t :: r, h => by
+    simp only [trySites] at h
+    split at h
+    · rename_i a' hf
+      simp only [Option.some.injEq, Prod.mk.injEq] at h
+      exact ⟨t, by simp, h.1 ▸ firstCrossing_mem hf, h.1 ▸ h.2.symm⟩
+    · obtain ⟨t', ht', hc⟩ := trySites_spec h
+      exact ⟨t', List.mem_cons_of_mem _ ht', hc⟩
+
+/-- **the obligation on the call structure**: if every call site is well keyed, the claim handed to the handler has the
+key (nonce and hash) of the attestation whose votes are tallied -/
+theorem handed_key (key : AnyClaim → η) (P : AnyClaim → Prop) {le : η → η → Bool} {s1 : AState η} {a1 a : Att η}
+    {c ch : AnyClaim} {sites : List TrySite} (wk : ∀ t ∈ sites, t.wellKeyed = true)
+    (hs : ∀ b ∈ s1.atts, AttOk key P b) (h1 : AttOk key P a1) (hn1 : a1.nonce = c.nonce) (hh1 : a1.hash = key c) (hc : P c)
+    (h : trySites le s1 a1 c sites = some (a, ch)) :
+    AttOk key P a ∧ ch.nonce = a.nonce ∧ key ch = a.hash ∧ P ch := by
+  obtain ⟨t, ht, hcand, hch⟩ := trySites_spec h
+  have hw := wk t ht
+  have ha : AttOk key P a := by
+    rcases mem_candidates hcand with ⟨_, rfl⟩ | hm
+    · exact h1
+    · exact hs a hm
+  refine ⟨ha, ?_⟩
+  simp only [TrySite.wellKeyed, Bool.or_eq_true, Bool.and_eq_true, beq_iff_eq] at hw
+  rcases hw with ⟨hv, hcl⟩ | hcl
+  · rcases mem_candidates hcand with ⟨_, rfl⟩ | _
+    · rw [hch, hcl]
+      exact ⟨hn1.symm, hh1.symm, hc⟩
+    · rw [hv] at hcand
+      simp only [candidates, List.mem_singleton] at hcand
+      subst hcand
+      rw [hch, hcl]
+      exact ⟨hn1.symm, hh1.symm, hc⟩
+  · rw [hch, hcl]
+    exact ha.1
+
+theorem inv_observe (key : AnyClaim → η) (P : AnyClaim → Prop) (s : AState η) (a : Att η) (ch : AnyClaim)
+    (hs : Inv key P s) (ha : AttOk key P a) (hn : ch.nonce = a.nonce) (hh : key ch = a.hash) (hc : P ch) :
+    Inv key P (observe key s a ch) := by
+  refine ⟨?_, ?_⟩
+  · intro b hb
     rcases mem_setAtt hb with rfl | hb
-    · exact ha
+    · refine ⟨⟨?_, ?_, ha.1.2.2⟩, fun v hv => ?_⟩
+      · exact ha.1.1.trans hn.symm
+      · exact ha.1.2.1.trans hh.symm
+      · have := ha.2 v hv
+        exact ⟨this.1.trans hn.symm, this.2.1.trans hh.symm, this.2.2⟩
     · exact hs.1 b hb
+  · intro e he
+    simp only [observe, List.mem_append, List.mem_singleton] at he
+    rcases he with he | rfl
+    · exact hs.2 e he
+    · refine ⟨hc, fun v hv => ?_⟩
+      have := ha.2 v hv
+      exact ⟨this.1.trans hn.symm, this.2.1.trans hh.symm, this.2.2⟩
 
-theorem inv_vote (key : AnyClaim → η) (P : AnyClaim → Prop) (s : AState η) (o : Nat) (c : AnyClaim) (hp : Bool)
-    (hs : Inv key P s) (hc : P c) : Inv key P (vote key s o c hp).1 := by
-  unfold vote
-  split
-  · exact hs
-  split
-  · exact hs
-  split
-  · exact hs
-  · obtain ⟨h0, hn, hh⟩ := attOk_attFor key P s c hs hc
-    exact inv_applyVote key P s _ o c _ hs (attOk_withVote key P _ o c h0 hn hh hc) hn hh hc
+theorem inv_afterVote (key : AnyClaim → η) (P : AnyClaim → Prop) (s : AState η) (a : Att η)
+    (hs : Inv key P s) (ha : AttOk key P a) : Inv key P (afterVote s a) := by
+  refine ⟨?_, hs.2⟩
+  intro b hb
+  rcases mem_setAtt hb with rfl | hb
+  · exact ha
+  · exact hs.1 b hb
 
-theorem inv_step (key : AnyClaim → η) (P : AnyClaim → Prop) (s : AState η) (op : Op)
-    (hs : Inv key P s) (hop : ∀ o c hp, op = .vote o c hp → P c) : Inv key P (step key s op) := by
+theorem inv_vote (sites : List TrySite) (wk : ∀ t ∈ sites, t.wellKeyed = true) (key : AnyClaim → η) (le : η → η → Bool)
+    (P : AnyClaim → Prop) (s : AState η) (o : Nat) (c : AnyClaim) (hp : Bool)
+    (hs : Inv key P s) (hc : P c) : Inv key P (voteWith sites key le s o c hp).1 := by
+  obtain ⟨h0, hn, hh⟩ := attOk_attFor key P s c hs hc
+  have h1 : AttOk key P (votedAtt key s o c) := attOk_withVote key P _ o c h0 hn hh hc
+  have hs1 := inv_afterVote key P s _ hs h1
+  unfold voteWith
+  split
+  · exact hs
+  split
+  · exact hs
+  split
+  · rename_i a ch hhit
+    split
+    · exact hs
+    · simp only [hit] at hhit
+      split at hhit
+      · obtain ⟨ha, hcn, hck, hpc⟩ := handed_key key P wk hs1.1 h1 hn hh hc hhit
+        exact inv_observe key P _ a ch hs1 ha hcn hck hpc
+      · cases hhit
+  · exact hs1
+
+theorem inv_step (sites : List TrySite) (wk : ∀ t ∈ sites, t.wellKeyed = true) (key : AnyClaim → η) (le : η → η → Bool)
+    (P : AnyClaim → Prop) (s : AState η) (op : Op)
+    (hs : Inv key P s) (hop : ∀ o c hp, op = .vote o c hp → P c) : Inv key P (stepWith sites key le s op) := by
   cases op with
-  | vote o c hp => exact inv_vote key P s o c hp hs (hop o c hp rfl)
+  | vote o c hp => exact inv_vote sites wk key le P s o c hp hs (hop o c hp rfl)
   | setPower o p => cases p <;> exact hs
   | setTotal t => exact hs
   | setExts xs => exact hs
   | setLastObserved n => exact hs
   | setOracleLast o n => cases n <;> exact hs
   | execute n f =>
-    simp only [step, execute]
+    simp only [stepWith, execute]
     split
     · exact hs
     · split <;> exact hs
 
-theorem pendInv_applyVote (s : AState η) (a : Att η) (o : Nat) (c : AnyClaim) (obs : Bool) (hs : PendInv s) :
-    PendInv (applyVote s a o c obs) := by
-  unfold applyVote
-  split
-  · refine ⟨?_, ?_⟩
-    · intro p hp
-      simp only at hp
-      have old : p ∈ s.pending → p.2.nonce = p.1 ∧ ∃ e ∈ s.executed ++ [{ claim := c, tallied := a.votes }], e.claim = p.2 := by
-        intro h
-        obtain ⟨hn, e, he, hc⟩ := hs.1 p h
-        exact ⟨hn, e, List.mem_append_left _ he, hc⟩
-      split at hp
-      · simp only [setPending, List.mem_cons, List.mem_filter] at hp
-        rcases hp with rfl | hp
-        · exact ⟨rfl, _, List.mem_append_right _ (List.mem_singleton.mpr rfl), rfl⟩
-        · exact old hp.1
-      · exact old hp
-    · intro c' hc'
-      obtain ⟨e, he, hc⟩ := hs.2 c' hc'
-      exact ⟨e, List.mem_append_left _ he, hc⟩
-  · exact hs
+/-! ### the pending store -/
 
-theorem pendInv_vote (key : AnyClaim → η) (s : AState η) (o : Nat) (c : AnyClaim) (hp : Bool) (hs : PendInv s) :
-    PendInv (vote key s o c hp).1 := by
-  unfold vote
+theorem pendInv_observe (key : AnyClaim → η) (s : AState η) (a : Att η) (ch : AnyClaim) (hs : PendInv s) :
+    PendInv (observe key s a ch) := by
+  refine ⟨?_, ?_⟩
+  · intro p hp
+    simp only [observe] at hp ⊢
+    have old : p ∈ s.pending → p.2.nonce = p.1 ∧ ∃ e ∈ s.executed ++ [{ claim := ch, tallied := a.votes }], e.claim = p.2 := by
+      intro h
+      obtain ⟨hn, e, he, hc⟩ := hs.1 p h
+      exact ⟨hn, e, List.mem_append_left _ he, hc⟩
+    split at hp
+    · simp only [setPending, List.mem_cons, List.mem_filter] at hp
+      rcases hp with rfl | hp
+      · exact ⟨rfl, _, List.mem_append_right _ (List.mem_singleton.mpr rfl), rfl⟩
+      · exact old hp.1
+    · exact old hp
+  · intro c' hc'
+    obtain ⟨e, he, hc⟩ := hs.2 c' hc'
+    exact ⟨e, List.mem_append_left _ he, hc⟩
+
+theorem pendInv_vote (sites : List TrySite) (key : AnyClaim → η) (le : η → η → Bool) (s : AState η) (o : Nat) (c : AnyClaim)
+    (hp : Bool) (hs : PendInv s) : PendInv (voteWith sites key le s o c hp).1 := by
+  unfold voteWith
   split
   · exact hs
   split
   · exact hs
   split
+  · split
+    · exact hs
+    · exact pendInv_observe key (afterVote s _) _ _ hs
   · exact hs
-  · exact pendInv_applyVote s _ o c _ hs
 
 omit [DecidableEq η] in
 theorem pendInv_execute (s : AState η) (n : Nat) (f : Bool) (hs : PendInv s) : PendInv (execute s n f) := by
@@ -292,9 +395,10 @@ theorem pendInv_execute (s : AState η) (n : Nat) (f : Bool) (hs : PendInv s) : 
             simp
           exact (hs.1 _ hm).2
 
-theorem pendInv_step (key : AnyClaim → η) (s : AState η) (op : Op) (hs : PendInv s) : PendInv (step key s op) := by
+theorem pendInv_step (sites : List TrySite) (key : AnyClaim → η) (le : η → η → Bool) (s : AState η) (op : Op) (hs : PendInv s) :
+    PendInv (stepWith sites key le s op) := by
   cases op with
-  | vote o c hp => exact pendInv_vote key s o c hp hs
+  | vote o c hp => exact pendInv_vote sites key le s o c hp hs
   | setPower o p => cases p <;> exact hs
   | setTotal t => exact hs
   | setExts xs => exact hs
@@ -302,12 +406,13 @@ theorem pendInv_step (key : AnyClaim → η) (s : AState η) (op : Op) (hs : Pen
   | setOracleLast o n => cases n <;> exact hs
   | execute n f => exact pendInv_execute s n f hs
 
-theorem pendInv_run (key : AnyClaim → η) (ops : List Op) (s : AState η) (hs : PendInv s) : PendInv (run key s ops) := by
+theorem pendInv_run (sites : List TrySite) (key : AnyClaim → η) (le : η → η → Bool) (ops : List Op) (s : AState η)
+    (hs : PendInv s) : PendInv (runWith sites key le s ops) := by
   induction ops generalizing s with
   | nil => exact hs
   | cons op r ih =>
-    simp only [run, List.foldl_cons]
-    exact ih _ (pendInv_step key s op hs)
+    simp only [runWith, List.foldl_cons]
+    exact ih _ (pendInv_step sites key le s op hs)
 
 omit [DecidableEq η] in
 theorem pendInv_init : PendInv ({} : AState η) := ⟨fun _ h => (by cases h), fun _ h => (by cases h)⟩
@@ -334,14 +439,15 @@ theorem claims_cons_subset {op : Op} {r : List Op} {c : AnyClaim} (h : c ∈ Op.
   case vote => simp only [Op.claims, List.mem_cons]; exact Or.inr h
   all_goals simpa only [Op.claims] using h
 
-theorem inv_run (key : AnyClaim → η) (P : AnyClaim → Prop) (ops : List Op) (s : AState η)
-    (hs : Inv key P s) (hops : ∀ c ∈ Op.claims ops, P c) : Inv key P (run key s ops) := by
+theorem inv_run (sites : List TrySite) (wk : ∀ t ∈ sites, t.wellKeyed = true) (key : AnyClaim → η) (le : η → η → Bool)
+    (P : AnyClaim → Prop) (ops : List Op) (s : AState η)
+    (hs : Inv key P s) (hops : ∀ c ∈ Op.claims ops, P c) : Inv key P (runWith sites key le s ops) := by
   induction ops generalizing s with
   | nil => exact hs
   | cons op r ih =>
-    simp only [run, List.foldl_cons]
+    simp only [runWith, List.foldl_cons]
     apply ih
-    · apply inv_step key P s op hs
+    · apply inv_step sites wk key le P s op hs
       intro o c hp e
       subst e
       exact hops c (mem_claims_of_vote List.mem_cons_self)
